@@ -16,6 +16,8 @@ Definition sres_eqb (a b : sres) : bool :=
   | RIns x y, RIns x' y' => N.eqb x x' && N.eqb y y'
   | RDel x, RDel x' => N.eqb x x'
   | RRule, RRule => true
+  | RRem x, RRem y => Bool.eqb x y
+  | RErrRule, RErrRule => true
   | RErrView, RErrView => true
   | RView v, RView v' => same_view v v'
   | _, _ => false
@@ -78,11 +80,12 @@ Fixpoint client_ok (v0 : view) (order : list sop) (own : list N) (rs : list (N *
   | [] => true
   | (id, RView v) :: r => is_prefix_state v0 order v own && client_ok v0 order own r
   | (id, RErrView) :: r => client_ok v0 order own r
+  | (id, RErrRule) :: r => client_ok v0 order own r
   | (id, _) :: r => client_ok v0 order (own ++ [id]) r
   end.
 
 Definition acked_ids (rs : list (N * sres)) : list N :=
-  flat_map (fun x => match snd x with RView _ | RErrView => [] | _ => [fst x] end) rs.
+  flat_map (fun x => match snd x with RView _ | RErrView | RErrRule => [] | _ => [fst x] end) rs.
 
 (* the report of a write equals what the serial order says at its position *)
 Fixpoint reports_ok (v : view) (order : list sop) (all : list (N * sres)) : bool :=
@@ -98,8 +101,13 @@ Fixpoint reports_ok (v : view) (order : list sop) (all : list (N * sres)) : bool
                                                          && N.eqb (n + d) (N.of_nat (length ts))
                                         | _ => false end
                 | Some (_, RDel n) => match o with SDel _ _ _ => N.eqb n (N.of_nat (before - after)) | _ => false end
-                | Some (_, RRule) => match o with SRule _ _ => true | _ => false end
-                | _ => false
+                | Some (_, r) =>
+                    (* a catalog operation: the value returned is what the catalog at this position gives *)
+                    match rule_step (vrules v) o with
+                    | Some (_, r') => sres_eqb r r'
+                    | None => false
+                    end
+                | None => false
                 end in
       ok && reports_ok v' r all
   end.
